@@ -6,7 +6,9 @@ from cxxheaderparser.simple import parse_string
 
 TECHNIQUE = 'Lean 4: _discard_contents proved against the significant-token abstraction of the real stream for every balanced content and every parser state (exact resume point, content irrelevance); attribute/static_assert consumers decided by correspondence and a bracket-soup oracle'
 LEAN_TARGET = "CxxModel.Props.C13"
-THEOREMS = ["Cxx.C13_discard_resumes", "Cxx.C13_discard_exact", "Cxx.C13_discard_content_irrelevant", "Cxx.C13_balanced_tables", "Cxx.discard_interp", "Cxx.interp_bind"]
+THEOREMS = ["Cxx.C13_discard_resumes", "Cxx.C13_discard_exact", "Cxx.C13_discard_content_irrelevant", "Cxx.C13_balanced_region",
+            "Cxx.C13_declspec_resumes", "Cxx.C13_gcc_attribute_resumes", "Cxx.C13_static_assert_resumes", "Cxx.C13_balanced_tables",
+            "Cxx.balTableOK", "Cxx.tokLoop_complete", "Cxx.discard_interp", "Cxx.interp_bind"]
 ANCHORS = ["parser.py:CxxParser._discard_contents", "parser.py:CxxParser._discard_ctor_initializer", "parser.py:CxxParser._consume_balanced_tokens",
            "parser.py:CxxParser._consume_attribute_specifier_seq", "parser.py:CxxParser._consume_attribute", "parser.py:CxxParser._consume_gcc_attribute",
            "parser.py:CxxParser._consume_declspec", "parser.py:CxxParser._consume_static_assert", "parser.py:CxxParser._parse_function",
@@ -21,7 +23,8 @@ CARRIED_BY = {
     "_discard_contents stops exactly after the closer matching the opener already consumed, for every balanced content": "theorems C13_discard_resumes, C13_discard_exact",
     "what is inside a discarded region cannot influence the continuation": "theorem C13_discard_content_irrelevant",
     "the bracket table of the balanced-token matcher is the regenerated one": "theorem C13_balanced_tables",
-    "attribute / static_assert consumers (balanced-token matcher with the `<` tolerance rule) and the resume point": "oracle `soup` + correspondence `parse[regions]` (not proof)",
+    "the balanced-token matcher ([[ ]], alignas, __declspec, __attribute__(( ))) consumes properly nested content (all five bracket kinds) up to the matching closer and returns exactly those tokens; _consume_declspec, _consume_gcc_attribute, _consume_static_assert end right after their region": "theorems C13_balanced_region, C13_declspec_resumes, C13_gcc_attribute_resumes, C13_static_assert_resumes (every content, stream state, parser state)",
+    "unbalanced `<`/`>` inside attribute arguments (tolerance rule), [[ ]] sequences, the ctor-initializer scan, and that each construct calls its consumer": "oracle `soup` + correspondence `parse[regions]` (not proof)",
 }
 ASSUMPTIONS = ["soups contain no preprocessor lines", "tokens are never glued (`[` `[` would lex as `[[`): the soup is a sequence of lexer tokens"]
 MODEL_COVERAGE = "Parser/Basic.lean: discardContents, consumeBalancedTokens; Parser/Decl.lean: attribute and static_assert consumers, discardCtorInitializer"
